@@ -410,6 +410,8 @@ def run(prop, tier, seed, replay):
         r = random.Random('%d/cmp-plan/%d' % (seed, idx))
         copy = r.choice(['rebuild', 'rebuild', 'rebuild', 'clone', 'clone', 'edif'])
         cls = classes[(idx // 3 * 2 + idx % 3) % len(classes)] if mode == 'named' else r.choice(classes)
+        if mode == 'named' and idx % 9 == 1:
+            cls = 'conn_inst'  # the class with the rarest trigger (same pin of a twin instance): extra share
         try:
             case = gen_case(seed, mode, idx, cls, copy)
             pairs = eval_case(case)
